@@ -51,7 +51,8 @@ def OneOf(*ts):
 
 
 class ClassSpec:
-    def __init__(self, qual, fields=None, invariants=None, ghost_props=None, env_methods=None, truth=None):
+    def __init__(self, qual, fields=None, invariants=None, ghost_props=None, env_methods=None, truth=None, inherit=True):
+        self.inherit = inherit                           # False: base-class invariants do not apply to this class
         self.qual = qual
         self.module = qual.split(".")[0]
         self.fields = dict(fields or {})
@@ -71,7 +72,8 @@ class EnvSpec:
 class FuncContract:
     def __init__(self, qual, params=None, returns=None, requires=(), ensures=(), raises=(), raises_when=(), modifies=(),
                  cls=None, ensures_exc=(), inline=False, loops=None, check_invariant=True, ghost=None, self_fields=None, fresh_self=False,
-                 assume_invariant=True, props=()):
+                 assume_invariant=True, props=(), result_is=None):
+        self.result_is = result_is            # text: the call returns exactly this (aliasing) expression of the post-state
         self.qual = qual
         self.params = dict(params or {})
         self.returns = returns
@@ -243,6 +245,8 @@ def apply_contract(eng, con, fn, args, kwargs, node, fr, caller_label=None):
     for exc, cond in con.raises_when:
         c = eng.truth(eng.eval_spec(cond, env, con.qual.split(".")[0], old=old))
         if eng.branch(c):
+            if isinstance(env.get("self"), VObj) and con.check_invariant and con.modifies:
+                assume_class_invariants(eng, env["self"])
             for nm, text in con.ensures_exc:
                 eng.assume(eng.truth(eng.eval_spec(text, dict(env, raised=VBool(True)), con.qual.split(".")[0], old=old)))
             raise RaiseSig(VExc(exc, [eng.fresh_str("excmsg", False)]))
@@ -251,11 +255,19 @@ def apply_contract(eng, con, fn, args, kwargs, node, fr, caller_label=None):
         if exc in declared_conditional:
             continue
         if eng.branch(eng.fresh_bool("raises_" + exc.split(".")[-1]).t):
+            if isinstance(env.get("self"), VObj) and con.check_invariant and con.modifies:
+                assume_class_invariants(eng, env["self"])
             for nm, text in con.ensures_exc:
                 eng.assume(eng.truth(eng.eval_spec(text, dict(env, raised=VBool(True)), con.qual.split(".")[0], old=old)))
             raise RaiseSig(VExc(exc, [eng.fresh_str("excmsg", False)]))
-    result = eng.fresh_of_type(con.returns, "ret_" + short) if con.returns is not None else NONE
+    if con.result_is is not None:
+        result = eng.eval_spec(con.result_is, env, con.qual.split(".")[0], old=old)
+    else:
+        result = eng.fresh_of_type(con.returns, "ret_" + short) if con.returns is not None else NONE
     env2 = dict(env, result=result, raised=VBool(False))
+    recv = env.get("self")
+    if isinstance(recv, VObj) and con.check_invariant and con.modifies:
+        assume_class_invariants(eng, recv)
     eng.assuming = True
     try:
         for nm, text in con.ensures:
@@ -327,6 +339,7 @@ def verify_function(eng, con, label=None, setup=None, extra_checks=None):
             outcome = ("normal", r.val)
         except RaiseSig as rs:
             outcome = ("raised", rs.exc)
+        eng.exits = getattr(eng, "exits", 0) + 1
         if outcome[0] == "raised":
             exc = outcome[1]
             allowed = any(eng.exc_is_subclass(exc.cls, a) for a in con.raises)
@@ -344,7 +357,12 @@ def verify_function(eng, con, label=None, setup=None, extra_checks=None):
         if extra_checks:
             extra_checks(eng, env2, old, outcome, label)
 
-    return eng.explore(run_once)
+    eng.exits = 0
+    n = eng.explore(run_once)
+    if eng.exits == 0:
+        raise OutOfSubset("vacuity guard: no path of %s reaches a function exit (contradictory contract or invariant?)" % con.qual)
+    eng.exit_paths = eng.exits
+    return n
 
 
 def all_specs(eng, cls):
@@ -353,6 +371,8 @@ def all_specs(eng, cls):
         s = eng.reg.class_spec(c)
         if s is not None:
             out.append(s)
+            if not s.inherit:
+                break
     return out
 
 
